@@ -64,6 +64,20 @@ Theorem C03_message_extent_agrees_partial : forall cf line1 ls body_enc tail f p
 Proof. exact message_extent. Qed.
 Print Assumptions C03_message_extent_agrees_partial.
 
+(* --- boundaries: the stream (PARTIAL).  For EVERY stream that the strict reader delimits into the messages ms (each a
+       line-structured head and the octets of its body) followed by arbitrary bytes, every configuration and every
+       offset: if Squid's framing decision for each message it forwards is the strict one (agree: HTTP/1.x, body of a
+       declared length, that length), then the i-th forwarded message starts where the strict reader's i-th message
+       starts, has its length and carries its body (aligned) — no byte of one client message is forwarded as part of
+       another.  Partial as C03_message_extent_agrees_partial is: the decision agreement is a hypothesis, chunked
+       messages are not covered at stream level. --- *)
+Theorem C03_squid_boundaries_agree_partial : forall ms cf tail,
+  Forall smsg_ok ms -> fits (stream_of ms ++ tail) ->
+  agree ms (run_stream cf (stream_of ms ++ tail)) ->
+  aligned 0 ms (run_stream cf (stream_of ms ++ tail)).
+Proof. intros ms cf tail. apply stream_aligned. Qed.
+Print Assumptions C03_squid_boundaries_agree_partial.
+
 (* a chunked-body of the grammar that is all the buffer holds is decoded to its body with nothing left (from C24) *)
 Theorem C03_chunked_body_decoded_exactly : forall relaxed cap m,
   ChunkedProofs.message_ok m -> lenN (ChunkedProofs.body m) <= cap ->
@@ -138,3 +152,14 @@ Example C03_ex_reject : exists c,
                                [67;111;110;116;101;110;116;45;76;101;110;103;116;104;58;32;54]] ++ crlf ++ [104]) = [EReject 0 c] /\
   c = sm_sc_bad_request.
 Proof. eexists. vm_compute. split; reflexivity. Qed.
+(* the hypotheses of C03_squid_boundaries_agree_partial hold for a pipeline of two messages (POST with 5 octets, then the
+   same again) followed by "GET" *)
+Definition ex_msg : smsg :=
+  {| sm_line1 := w_l1; sm_lines := [w_host; [67;111;110;116;101;110;116;45;76;101;110;103;116;104;58;32;53]];
+     sm_body_enc := [104;101;108;108;111] |}.
+Example C03_ex_stream : Forall smsg_ok [ex_msg; ex_msg] /\
+  agree [ex_msg; ex_msg] (run_stream (sm_default_cfg true) (stream_of [ex_msg; ex_msg] ++ [71;69;84])) /\
+  length (filter is_forward (run_stream (sm_default_cfg true) (stream_of [ex_msg; ex_msg] ++ [71;69;84]))) = 2%nat.
+Proof.
+  split; [repeat constructor; try discriminate|]. split; [vm_compute; repeat split; reflexivity|vm_compute; reflexivity].
+Qed.
